@@ -2,7 +2,6 @@ package rules
 
 import (
 	"fmt"
-	"go/constant"
 	"go/types"
 	"reflect"
 	"strings"
@@ -17,16 +16,20 @@ import (
 // flag reads c.String/Int/Bool/IsSet("name") and the configuration file reader.
 func buildFlow(c *core.Ctx) *flow.Graph {
 	g := flow.Build(c.P.Funcs, c.P.InScope, c.P.CallGraph())
-	g.FlagRead = func(call *ssa.Call) (string, bool) {
+	g.FlagRead = func(call *ssa.Call) ([]string, bool) {
 		cal := call.Call.StaticCallee()
 		for _, m := range []string{"String", "Int", "Bool", "IsSet"} {
 			if isCtxMethod(cal, m) && len(call.Call.Args) == 2 {
-				if cst, ok := call.Call.Args[1].(*ssa.Const); ok && cst.Value != nil && cst.Value.Kind() == constant.String {
-					return m + "(" + constant.StringVal(cst.Value) + ")", true
+				if names, ok := flagNames(c.P, call.Call.Args[1], 3); ok {
+					var out []string
+					for _, n := range names {
+						out = append(out, m+"("+n+")")
+					}
+					return out, true
 				}
 			}
 		}
-		return "", false
+		return nil, false
 	}
 	optT := c.P.LookupType(optionsPkg, "Options")
 	g.ExternalWrites = func(call *ssa.Call) (string, []types.Type) {
